@@ -50,6 +50,10 @@ CHECKS.update({
  "C15": dict(cat="model_checking", text="Registry.tla fixes the numbering, the runner defaults and the two rounds. Byte-aligned TLC vectors (every byte; generator sequences of 128..4096 (20000) bytes) go through the byte-oriented, bit-oriented and runner entry points and must be bit-identical and equal to the spec value; on 1121..125000-byte strings with special byte runs TLC judges bit for bit that runner i = Round15[i] = Round12[i] = entry point of test i at the standard's default and differs from neighbouring documented parameters; ReadGroup = byte expansion.", ref="4 C15", note="neighbour discrimination only where the parameters differ numerically on the input (counted)", tech="TLA+ spec (Registry) + TLC-generated byte-aligned vectors replayed into all entry points; registry passes validated by TLC (TraceRegistry)"),
  "C16": dict(cat="model_checking", text="Registry!ResultOK (finite, [0,1] up to 1e-9, P = 2 min(Q,1-Q) for the two-sided tests, Q = P for chi-square tests, Pass <=> P >= 0.01 with min(P1,P2) for the overlapping test) is judged by TLC on every result of all fifteen tests with every documented parameter and of the registry runners, on extreme descriptors (constant, alternating, single transition, one-hot, heavy bias, balanced halves, periodic) and seeded inputs from each test's minimum length to 10^6 (10^7) bits.", ref="4 C16", note="inputs are descriptor-generated, not enumerated; panics count as violations", tech="TLA+ result predicate (Registry!ResultOK) evaluated by TLC on traces recorded from the real tests (TraceRegistry)"),
 })
+CHECKS.update({
+ "C17": dict(cat="model_checking", text="Symmetry.tla holds the table test x transformation -> relation and TLC checks every entry against the Def operators on all sequences of 8..10 (12) bits (every rotation amount, block rotation, complemented tail). Against the code, pairs (x, tau x) for every claimed entry x documented parameters: every rotation amount at n=100/128/131, sampled rotations, random block permutations and tail contents up to 10^6 bits; TLC judges the relation (same / Q -> 1-Q / ones<->zeros / forward<->backward) at 1e-9.", ref="4 C17", note="1e-9 covers float summation-order differences (1.5e-10 observed for ApEn at 10^6 bits)", tech="TLA+ relation table (SymmetryTable/Symmetry) model-checked against the definitions by TLC; transformed inputs replayed into Go; recorded pairs validated by TLC (TraceSymmetry)"),
+ "C18": dict(cat="model_checking", text="Purity.tla models invocations as processes with read/write footprints (input, tables, private scratch) and TLC checks non-interference over all interleavings of 2-3 invocations, with shared scratch and input-writing as negative controls. TLC-generated plans (2..64 goroutines x any mix of the 15 runners and the two rounds, shared/private inputs, start barrier) are run free: results bit-identical to solitary results, inputs hashed, table probe; repeated in a -race build. Per-call input purity and determinism are also checked in every C01-C05/C15 replay.", ref="4 C18", note="footprints are bound observationally (snapshots, bit identity, race detector); schedules sampled", tech="TLA+ footprint model (Purity) model-checked by TLC; TLC-generated concurrency plans replayed into Go (plain and -race); outcomes validated by TLC (TracePurity)"),
+})
 PENDING = {}
 
 def main():
